@@ -64,7 +64,7 @@ Procedure to confirm each change yourself before delivering: with a clean worktr
 ROUND_NOTE = (' Earlier rounds of this exercise already produced changes of the following kinds, so choose DIFFERENT mechanisms: decrypting or computing in place into caller buffers; '
               'scratch buffers or cached structures (per algorithm, per kid, per external-data buffer) kept between calls; integer conversions that wrap (uint64 to int64) in label or algorithm handling; '
               'hand-written CBOR head writers with boundary slips; normalising an empty protected bucket; memoising key_ops or copying the key inside factories; kid lookup by prefix; decoding into a non-empty destination; '
-              'off-by-one length checks in AEAD / HKDF code; a wrong hash for one algorithm; masking high bits of signatures; iota or alias slips in constant tables; pooled randomness that rewinds; Partial IV XOR done in place on the key; NaN or bignum time claims; a 64-byte Ed25519 d; the sign bit of a compressed point; keeping the options pointer of the caller; filtering key_ops in place; swallowing the GetInt error in Key.Alg; XOR-accumulating kid comparison; lenient array arity; treating alg 0 as absent; trimming leading zeros of the Partial IV; time-prefixed nonces; truncating now to seconds; loop-variable capture in closures; chunked CBC-MAC with an aliased IV or stale padding; MaxNestedLevels; normalising nested map labels on decode; salt truncation in HKDF; hex / iota slips in constant tables; merging the Sig_structure builders; re-serialising the protected map on verification or before MarshalCBOR; keeping the received protected bucket when producing again; an ivChosen flag on the message object; rewriting xorIV; DER re-encoding of r||s; lenient signature lengths; reusing embedded public coordinates in ToPublicKey; comparing coordinates as minimal-length integers; Key.Ops() via reflection or returning nil for an empty list; comparing crv members as interface values; typed getters treating null as absent; Duration overflow in the expiry test; an unsynchronised field in the Validator; append into a coordinate slice; two-pass COSE_Sign verification by kid; CCM additional-data offsets; recover() around Seal; HKDF written by hand; IntDec decoder option; CoseMap.MarshalCBOR fast paths and duplicate detection; KDFContext nil versus empty SuppPrivInfo; swapped claim numbers; implicit constant repetition; a shared package-level empty map; a missing guard after restructuring nonce selection into a switch; CheckKey validating crv through CrvAlg; ECDH skipping CheckKey of the remote key; ToPublicKey keeping key_ops that already contain verify; type assertion instead of GetBytes for an embedded x; KeySet() de-duplicating by kid; Lookup falling back to the only entry; writing the decompressed y back into the peer key; lazily built AEAD field; constants under a build tag; a new constant colliding with an existing one; hand-written CTR counter carry; AAD length encoding boundaries; Partial IV cap; XChaCha for 24-byte IVs; leftover bookkeeping in HKDF reads; exp == 0 treated as unset; Duration division for the skew limit; KeySet.UnmarshalCBOR dropping keys; GetInt for dates; r, s range checks; stripping zeros in compressed points; kid-less COSE_Sign signatures; checkBuckets ordering; Mac0 verify-then-check; alg-less keys unrestricted; detached payload with len == 0; Bytesify versus Bytes; CanonicalEncOptions preset; err shadowing in Claims decode; crit validation with un-normalised labels; recipients attached to the wire struct only once; a matched flag not reset between COSE_Signature entries; HMAC keys longer than prescribed; stale Enc_structure kept between Decrypt calls; retrying Decrypt with another Base IV alignment; sign_protected treated as optional; PartyInfo nil versus empty members; verifier chosen among several sharing a kid; merged protected/unprotected view with unprotected winning; GetRandomBytes leaving tail bytes zero; lazily allocated Unprotected map in Encrypt; FillBytes panics on over-long coordinates; tag head parsing without length checks in RemoveCBORTag; payload encoded with the default (unsorted) encoder; an empty-map fast path in HeadersFromBytes; Recipient with nil Unprotected and nested recipients; ByteStr payloads; scalar padding that keeps the wrong end; KeyFromPrivate aliasing the buffer of the caller; HMAC verification of longer prefixes; KeyFrom truncating with copy; adata == nil versus len 0; a plaintext limit applied to L = 8; the compressed ECDH branch delegating to ecdsa.CheckKey; KeyToPrivate comparing a boolean y as bytes; normalising key_ops on decode with SetOps; key-wrap operations for ECDH keys; EqualFold kid comparison; a fail-early key_ops check with || in the factories; iat only checked when requested; GetString accepting byte strings; sync.Pool hashers returning aliased digests; NewVerifier writing a default kid into the key of the caller; multi-name const specs with a positional slip; operator precedence in a constant expression. '
+              'off-by-one length checks in AEAD / HKDF code; a wrong hash for one algorithm; masking high bits of signatures; iota or alias slips in constant tables; pooled randomness that rewinds; Partial IV XOR done in place on the key; NaN or bignum time claims; a 64-byte Ed25519 d; the sign bit of a compressed point; keeping the options pointer of the caller; filtering key_ops in place; swallowing the GetInt error in Key.Alg; XOR-accumulating kid comparison; lenient array arity; treating alg 0 as absent; trimming leading zeros of the Partial IV; time-prefixed nonces; truncating now to seconds; loop-variable capture in closures; chunked CBC-MAC with an aliased IV or stale padding; MaxNestedLevels; normalising nested map labels on decode; salt truncation in HKDF; hex / iota slips in constant tables; merging the Sig_structure builders; re-serialising the protected map on verification or before MarshalCBOR; keeping the received protected bucket when producing again; an ivChosen flag on the message object; rewriting xorIV; DER re-encoding of r||s; lenient signature lengths; reusing embedded public coordinates in ToPublicKey; comparing coordinates as minimal-length integers; Key.Ops() via reflection or returning nil for an empty list; comparing crv members as interface values; typed getters treating null as absent; Duration overflow in the expiry test; an unsynchronised field in the Validator; append into a coordinate slice; two-pass COSE_Sign verification by kid; CCM additional-data offsets; recover() around Seal; HKDF written by hand; IntDec decoder option; CoseMap.MarshalCBOR fast paths and duplicate detection; KDFContext nil versus empty SuppPrivInfo; swapped claim numbers; implicit constant repetition; a shared package-level empty map; a missing guard after restructuring nonce selection into a switch; CheckKey validating crv through CrvAlg; ECDH skipping CheckKey of the remote key; ToPublicKey keeping key_ops that already contain verify; type assertion instead of GetBytes for an embedded x; KeySet() de-duplicating by kid; Lookup falling back to the only entry; writing the decompressed y back into the peer key; lazily built AEAD field; constants under a build tag; a new constant colliding with an existing one; hand-written CTR counter carry; AAD length encoding boundaries; Partial IV cap; XChaCha for 24-byte IVs; leftover bookkeeping in HKDF reads; exp == 0 treated as unset; Duration division for the skew limit; KeySet.UnmarshalCBOR dropping keys; GetInt for dates; r, s range checks; stripping zeros in compressed points; kid-less COSE_Sign signatures; checkBuckets ordering; Mac0 verify-then-check; alg-less keys unrestricted; detached payload with len == 0; Bytesify versus Bytes; CanonicalEncOptions preset; err shadowing in Claims decode; crit validation with un-normalised labels; recipients attached to the wire struct only once; a matched flag not reset between COSE_Signature entries; HMAC keys longer than prescribed; stale Enc_structure kept between Decrypt calls; retrying Decrypt with another Base IV alignment; sign_protected treated as optional; PartyInfo nil versus empty members; verifier chosen among several sharing a kid; merged protected/unprotected view with unprotected winning; GetRandomBytes leaving tail bytes zero; lazily allocated Unprotected map in Encrypt; FillBytes panics on over-long coordinates; tag head parsing without length checks in RemoveCBORTag; payload encoded with the default (unsorted) encoder; an empty-map fast path in HeadersFromBytes; Recipient with nil Unprotected and nested recipients; ByteStr payloads; scalar padding that keeps the wrong end; KeyFromPrivate aliasing the buffer of the caller; HMAC verification of longer prefixes; KeyFrom truncating with copy; adata == nil versus len 0; a plaintext limit applied to L = 8; the compressed ECDH branch delegating to ecdsa.CheckKey; KeyToPrivate comparing a boolean y as bytes; normalising key_ops on decode with SetOps; key-wrap operations for ECDH keys; EqualFold kid comparison; a fail-early key_ops check with || in the factories; iat only checked when requested; GetString accepting byte strings; sync.Pool hashers returning aliased digests; NewVerifier writing a default kid into the key of the caller; multi-name const specs with a positional slip; operator precedence in a constant expression; validating RawMessage payloads on decode only; summing instead of maximising recipient depths; the last COSE_Signature deciding; de-duplicating COSE_Signature entries by kid and signature; remembering the last opened nonce on the message object; external data nested under a protected-bucket test; keeping the payload as a raw item; a map-head mask in HeadersFromBytes; the body alg of a COSE_Sign overriding the signer alg; GetInt instead of Key.Alg for the default alg; a buffered shared random reader; a normalised copy of the unprotected bucket; MarshalCompressed on unchecked points; multi-valued aud with an empty array; ToInt-based label checks; ValidCBOR instead of a generic decode; dropping null members on encode; a minimum ciphertext length; bit bounds instead of octet bounds for P-521; rejecting empty messages in Verify; double-MAC comparison; per-parameter checks inside the loop over the key map; an extra zero block at block multiples; refusing all-zero nonces; int arithmetic for the byte block counter; a copy-pasted output limit; right-aligning y by the length of x; decoding the remote point on the local curve; regrouped embedded-point checks; expanding compressed public keys with Bytes(); binary search over unsorted key_ops; sign-requires-d hardening; kid-less entries matching every kid; abs() of a negative skew; GetTime mapping unrepresentable dates to zero; move-to-front lookups; a failed-verification counter; negative-integer notation slips; constants written relative to a neighbour. '
               'Prefer logic errors in less-travelled code paths: error handling that swallows or reorders errors, conditions that are subtly too weak or too strong for one message kind only, default values, interplay between two '
               'functions that each look fine, differences between the generic (map) and typed (struct) paths, and behaviour that depends on the ORDER of operations or of map / slice elements. '
               'Especially welcome: changes that only show over a SEQUENCE of calls on one object, over TWO objects or TWO keys that share something, on the multi-layer kinds (COSE_Sign signers, COSE_Mac / COSE_Encrypt recipients, nested recipients, KDF contexts), in the JSON / text forms, or through exported helper functions that the message layer itself does not use.')
